@@ -17,6 +17,9 @@ Environment (wrapper only; nothing in the repository is touched; active only und
   C07_GLOB_ORDER   order in which glob.glob returns its matches (the clean-up removes files in this order; the OS leaves it
                    unspecified): 'sorted' (default), 'reverse', 'fs' (whatever the file system says), or 'locks_last'
                    (names ending in _lock/_collected/_processed after all others - the least favourable order)
+  C07_DB_KILL      kill the run at a PHASE of the GTF -> sqlite conversion (gffutils writes through sqlite, which the mutation counter
+                   cannot see): 'before' (entry of gffutils' _DBCreator.create), 'tables' (tables created, empty), 'populated' (features
+                   inserted), 'relations' (relations inserted, before _finalize writes meta data and indices), 'after' (create returned)
 The wrapper makes itself a session leader so that the kill reaches the pool workers and nothing else."""
 import os, sys, json, runpy, builtins, fcntl, signal, shutil, weakref
 
@@ -145,10 +148,35 @@ def install():
     shutil.copyfile = _wrap("copy", _copyfile, True); shutil.rmtree = _wrap("rmtree", _rmtree)
 
 
+def install_db_kill(phase):
+    from gffutils import create as gc
+    def after(cls, name, ph):
+        real = getattr(cls, name)
+        if name not in cls.__dict__: return
+        def f(self, *a, **k):
+            r = real(self, *a, **k)
+            if phase == ph:
+                try: self.conn.commit()
+                except Exception: pass
+                _die()
+            return r
+        setattr(cls, name, f)
+    real_create = gc._DBCreator.create
+    def create(self, *a, **k):
+        if phase == "before": _die()
+        r = real_create(self, *a, **k)
+        if phase == "after": _die()
+        return r
+    gc._DBCreator.create = create
+    for cls in (gc._DBCreator, gc._GFFDBCreator, gc._GTFDBCreator):
+        after(cls, "_init_tables", "tables"); after(cls, "_populate_from_lines", "populated"); after(cls, "_update_relations", "relations")
+
+
 if __name__ == "__main__":
     try: os.setsid()
     except OSError: pass
     install()
+    if os.environ.get("C07_DB_KILL"): install_db_kill(os.environ["C07_DB_KILL"])
     script = os.path.join(REPO, "isoquant.py")
     sys.argv = [script] + sys.argv[1:]
     runpy.run_path(script, run_name="__main__")
